@@ -23,3 +23,17 @@ CHECKS["C01"] = {
   "text": "Every operation history up to depth 2 (quick) / 3 (thorough) over a ~150-300 operation alphabet (all int/slice/mask/index-array/ellipsis/2-D indices incl. negative and out-of-range values, concatenation, stacking, repeat, from_template, atom and model deletion, atom/model assignment, annotation edits, coord/box/bonds assignment, copy) from 9 initial containers is executed on the real objects and compared with a list-of-atoms model: annotations, coord, per-model box, bonds, __eq__ against a model-built twin and perturbed twins, leaf views, copy independence.",
   "note": "Trusts the list-of-atoms model in props/c01.py and numpy's indexing of np.arange(n) as the meaning of an index; indices numpy rejects only have to raise or yield a coherent container; failed in-place calls only have to leave a coherent container.",
 }
+CHECKS["C03"] = {
+  "engine": "E2-input-enumerator",
+  "technique": "complete enumeration of bounded input spaces (all byte values, all codes in [-300,600], all alphabets of size 1..94, all k-mer codes/tuples, all short sequences, all nucleotide strings up to length 6-9 x 30 codon tables) against dict/list models and a codon-by-codon ORF model",
+  "ref": "DESIGN.md section 4 C03; notes/C03.md",
+  "text": "Every symbol/byte/code of the listed finite ranges is pushed through every encode/decode/mapper/k-mer entry point and every Sequence operation and compared with an independent Python model (ACCEPT value / REFUSE AlphabetError / EITHER); translation and ORF reporting are compared with a codon-by-codon dictionary model for every nucleotide string up to the length bound and every NCBI table. ~7.2 M cases quick, ~65 M thorough; no sampling.",
+  "note": "Trusts mc/models/seqmodel.py (alphabet, IUPAC complement table, NCBI table parser, ORF definition written from the property statement); values outside the enumerated ranges and sequences longer than the bounds are not covered.",
+}
+CHECKS["C07"] = {
+  "engine": "E2-input-enumerator",
+  "technique": "complete enumeration of column-boundary ladders (every single deviation at every location, all pairs on small shapes), all bond graphs on <=3-4 atoms x residue kinds, and every hybrid-36 integer of widths 1-4 (quick) / 5 (thorough) against an independent fixed-column format model",
+  "ref": "DESIGN.md section 4 C07; notes/C07.md",
+  "text": "Every value of per-field ladders placed on and around the PDB column limits (coordinates, B-factor, occupancy, charge, ids, name lengths, atom-name x element alignment, box) is written at every location of 1-3 atom arrays and small stacks in decimal and hybrid-36 mode; the written records are sliced at the standard columns (layout law), read back (round-trip law), or must be refused with nothing written (refusal law); every hybrid-36 integer is encoded and decoded against an odometer model. ~3.0 M cases quick, ~90 M thorough.",
+  "note": "Trusts mc/models/pdbfmt.py (column tables of the wwPDB format, hybrid-36 positional definition, decimal rounding via the decimal module, textbook cell geometry) and the synthetic component dictionary for bond types restored on reading.",
+}
